@@ -37,6 +37,10 @@ CLAIMED = {
             "Kernel-checked theorems over the model of SourceMap::adjust_mappings (create_ranges with its sort, the two-pointer sweep, the i32 displacement arithmetic with explicit overflow, the final sort) against a specification written from the property text (stretch = from a token to the next token or end of line; one token per pair of stretches with non-empty overlap, at the start of the overlap moved by the adjustment token's generated-minus-original displacement, carrying the original token's data; result ordered): c10_exact (for all inputs with coordinates < 2^30, duplicates included, the result is the position-sort of one token per overlapping (adjustment range, original range) pair), c10_sound, c10_complete_once, c10_eq_spec / c10_eq_spec_canonical / c10_eq_spec_exact (equal to the specification when no two tokens share a key on either side), c10_spec_no_truncation, c10_untouched (sources, names, contents, root, file, ignore list, debug id), c10_sorted (all inputs), c10_safe (no panic below 2^30). c10_dup_counterexample shows the distinct-keys hypothesis is necessary on both sides: that is the open finding F16. Tied to the code by a differential run: all pairs of multisets of <= 3 tokens on a 2x4 grid x 4 displacement patterns (thorough), random maps up to 30x30 tokens with duplicates on either side, adjustment in any order, multi-line displacement, coordinates around 2^30/2^31/2^32 (impl-vs-model only).",
             "Trusted: Lean kernel, model lean/SmVerif/Model/Adjust.lean, harness/driver; sort_unstable modelled as a stable sort (holds below 21 elements and for ordered input: longer lists with tied keys are handed over pre-ordered). KNOWN FINDING F16 (open, listed in known_findings.json by failure class): with a duplicated position on either side the code emits a token for the EMPTY stretch of every duplicate but the last when that position lies strictly inside the other side's stretch (and not when it coincides with its start) - the property allows one token per NON-empty overlap; the narrow class (duplicated key + implementation equal to the validated model + only extra tokens) is reported as KNOWN-FINDING, anything else is a violation. Not repaired: dropping empty ranges makes the crate's own test_adjust_mappings_injection fixtures fail. Outside the quantifier: for coordinates >= 2^31 the i32 casts overflow (panic with overflow checks) although the exact result is representable.",
             "Lean 4 proof (two-pointer sweep invariant, permutation with a declarative overlap specification) + exhaustive small-scope differential correspondence"),
+    "C17": ("7/C17",
+            "Kernel-checked theorems over the model of function-name resolution (RevTokenIter with its (line, UTF-16 column, byte offset) cache, get_javascript_token / strip_identifier, the take(128).peekable() pairing, lookup_token's start index), parametric in the identifier predicates (for every idStart / idContinue / isWhitespace): c17_cache_correct (for every position-ordered token list and every window whose tokens sit on character boundaries, the reverse iterator yields each token with exactly the text a from-scratch reading gives at its UTF-16 column - the cache is only an optimisation; BMP and astral characters), c17_resolve_eq_spec / c17_resolve_new_eq_spec (resolution = the declarative rule: among the at most 128 tokens walking back from the looked-up token, the first whose text is the given identifier and whose predecessor inside the window reads 'function'; nothing if the name is not an identifier), c17_lookup_index (the start token is the first at an exact position, else the last before), c17_identifier_chars, c17_identifier_text, c17_not_identifier_none, c17_textAt_suffix, and c17_safe / c17_safe_new: no text, map, position or name makes resolution panic or hang (the usize subtraction of the backward walk cannot underflow on an ordered map; witnesses show both hypotheses are necessary). The 128 is regenerated from sourceview.rs. Tied to the code by a differential run over generated minified programs (several functions per line/lines, non-ASCII and astral identifiers, ZWJ, names that are prefixes of one another, tokens on/before/after declarations and past end of line, windows at distance 123-131, exact and inexact lookups, non-identifier candidates).",
+            "Trusted: Lean kernel, models lean/SmVerif/Model/{NameRes,NameResSpec,Lookup}.lean, harness/driver; unicode-id-start tables and char::is_whitespace are parameters of every theorem (for execution the character pool of each case is cross-checked against the crate in the harness: pool-mismatch otherwise). A token whose column lies inside a surrogate pair is outside the property (text is read at UTF-16 columns): such cases are compared impl-vs-model only.",
+            "Lean 4 proof (cache invariant over the reverse walk, stream refinement of the peekable window) + regenerated constant + differential correspondence"),
 }
 
 PENDING_REASON = "not claimed yet: model/theorems for this property are still being built (see DESIGN.md section 7); no check is registered rather than registering an unsound one"
